@@ -797,15 +797,30 @@ type actParams struct {
 func (a *scriptActParam) ParameterNew() interface{} { return &actParams{} }
 func (a *scriptActParam) Run(ctx run.ExecuteContext, p interface{}) error {
 	t, _ := entity.CtxRunningTaskIns(ctx.Context())
+	e := a.e
 	if ap, ok := p.(*actParams); ok && ap != nil {
-		m := map[string]interface{}{"p1": ap.P1, "p2": ap.P2}
-		if ap.P3 != nil {
-			m["p3"] = ap.P3
+		// what the templates of the 'tmpl' scenarios must have been rendered to (see genScenario)
+		v, _ := ctx.GetVar("v")
+		wv, _ := ctx.GetVar("w")
+		code := 0
+		if strings.Contains(a.e.scen.tmplOf(t.TaskID), "shareData") {
+			k0, has := ctx.ShareData().Get("k0")
+			if !has {
+				code = 1 // the action runs although its template could not be rendered
+			} else if ap.P1 != v+"|"+k0 {
+				code = 2
+			}
+		} else if ap.P1 != v+"|" {
+			code = 2
 		}
-		if ap.P4 != nil {
-			m["p4"] = ap.P4
+		if len(ap.P4) > 0 {
+			if s, _ := ap.P4[0].(string); s != wv {
+				code = 3 // template inside a list not rendered
+			}
 		}
-		a.e.log(L(I(25), I(a.e.nm.Id(t.ID)), valueSx(m, a.e.nm)), fmt.Sprintf("A params %s %v", t.TaskID, m))
+		if code != 0 {
+			e.log(L(I(34), I(e.nm.Id(t.ID)), I(code)), fmt.Sprintf("A params-wrong %s code=%d p1=%q p4=%v", t.TaskID, code, ap.P1, ap.P4))
+		}
 	}
 	return a.phase(ctx, "run")
 }
